@@ -12,30 +12,57 @@ inductive OpFails (env : Env) (db : Db) : Op → Prop
   | createBlankId (σ f rank) : OpFails env db (.create σ "" f rank)
   | createExists (σ id f rank) : present σ db id = true → OpFails env db (.create σ id f rank)
   | createUnusableKey (σ id f rank) : keyRejected f = true → OpFails env db (.create σ id f rank)
-  | createName (σ id f rank) : nameRejected db id none f = true → OpFails env db (.create σ id f rank)
-  | createEmptyRole (σ id f rank) : rolesRejected none f = true → OpFails env db (.create σ id f rank)
+  | createName (σ id f rank) : nameRejected true db id (createOld σ db id) f = true → OpFails env db (.create σ id f rank)
+  | createEmptyRole (σ id f rank) : rolesRejected (createOld σ db id) f = true → OpFails env db (.create σ id f rank)
   | createMissingFk (σ id f rank) :
-      refRejected (db.put id (writtenEnt σ db id f rank)) none f = true → OpFails env db (.create σ id f rank)
+      refRejected true (db.put id (writtenEnt σ db id f rank)) (createOld σ db id) f = true → OpFails env db (.create σ id f rank)
   | createVetoParentFlow (id f rank) : vetoed env .P .created id = true → OpFails env db (.create .C id f rank)
   | createVetoOwnFlow (σ id f rank) : vetoed env σ .created id = true → OpFails env db (.create σ id f rank)
+  /-- index-stage veto on create, parent flow: a custom constraint of the parent store objects after the write -/
+  | createIxVetoParent (σ id f rank) : ixVetoed env .P .afterUpdate id = true → OpFails env db (.create σ id f rank)
+  /-- index-stage veto on create, child flow: a custom constraint of the child store objects after the write -/
+  | createIxVetoChild (id f rank) : ixVetoed env .C .afterUpdate id = true → OpFails env db (.create .C id f rank)
+  /-- child data created over an existing parent entity: a custom constraint of the parent store objects "before update" -/
+  | createIxVetoOverParent (id f rank) : (db.get id).isSome = true → ixVetoed env .P .beforeUpdate id = true →
+      OpFails env db (.create .C id f rank)
   | updateBlankId (σ f rank) : OpFails env db (.update σ "" f rank)
   | updateNotFound (σ id f rank) : view (updateStore σ db id) db id = none → OpFails env db (.update σ id f rank)
   | updateUnusableKey (σ id f rank) : keyRejected f = true → OpFails env db (.update σ id f rank)
-  | updateName (σ id f rank) : nameRejected db id ((db.get id).map (·.f)) f = true → OpFails env db (.update σ id f rank)
+  | updateName (σ id f rank) : nameRejected false db id ((db.get id).map (·.f)) f = true → OpFails env db (.update σ id f rank)
   | updateEmptyRole (σ id f rank) : rolesRejected ((db.get id).map (·.f)) f = true → OpFails env db (.update σ id f rank)
   | updateMissingFk (σ id f rank) :
-      refRejected (db.put id (writtenEnt σ db id f rank)) ((db.get id).map (·.f)) f = true →
+      refRejected false (db.put id (writtenEnt σ db id f rank)) ((db.get id).map (·.f)) f = true →
       OpFails env db (.update σ id f rank)
   | updateVetoParentFlow (σ id f rank) : vetoed env .P .updated id = true → OpFails env db (.update σ id f rank)
   | updateVetoChildFlow (σ id f rank) : updateStore σ db id = .C → vetoed env .C .updated id = true →
       OpFails env db (.update σ id f rank)
+  /-- index-stage veto on update, parent flow: before the write (nothing is written) or after it -/
+  | updateIxVetoParent (σ id f rank) (stage : Stage) : stage ≠ .beforeDelete → ixVetoed env .P stage id = true →
+      OpFails env db (.update σ id f rank)
+  /-- index-stage veto on update, child flow (entity with child data, through either store) -/
+  | updateIxVetoChild (σ id f rank) (stage : Stage) : stage ≠ .beforeDelete → updateStore σ db id = .C →
+      ixVetoed env .C stage id = true → OpFails env db (.update σ id f rank)
   | deleteNotFound (σ id) : db.get id = none → OpFails env db (.delete σ id)
   | deleteReferenced (σ id) : db.any (fun p => !(p.1 == id) && refBytes p.2.f.ref == id) = true →
       OpFails env db (.delete σ id)
   | deleteVetoParentFlow (σ id) : vetoed env .P .deleted id = true → OpFails env db (.delete σ id)
   | deleteVetoChildFlow (σ id) : hasChild db id = true → vetoed env .C .deleted id = true →
       OpFails env db (.delete σ id)
+  /-- index-stage veto on delete, parent flow -/
+  | deleteIxVetoParent (σ id) : ixVetoed env .P .beforeDelete id = true → OpFails env db (.delete σ id)
+  /-- index-stage veto on delete, child flow: the entity has child data and a custom constraint registered
+      on the child store itself objects (through either store) -/
+  | deleteIxVetoChild (σ id) : hasChild db id = true → ixVetoed env .C .beforeDelete id = true →
+      OpFails env db (.delete σ id)
   | badQuery (σ) : OpFails env db (.deleteWhere σ .bad)
+
+theorem ixVetoedFor_P (env : Env) (σ : StoreId) (stage : Stage) (id : String)
+    (h : ixVetoed env .P stage id = true) : ixVetoedFor env σ stage id = true := by
+  unfold ixVetoedFor; simp [h]
+
+theorem ixVetoedFor_C (env : Env) (stage : Stage) (id : String)
+    (h : ixVetoed env .C stage id = true) : ixVetoedFor env .C stage id = true := by
+  unfold ixVetoedFor; simp [h]
 
 theorem passVetoes_vetoed (env : Env) (flows : List Flow) (fl : Flow) (hm : fl ∈ flows)
     (hv : vetoed env fl.store fl.kind fl.id = true) : (passVetoes env flows).2 = false := by
@@ -54,6 +81,7 @@ theorem specDelete_accepted' (env : Env) (fault : Fault) (id : String) (db : Db)
     (h : (specDelete env fault id db).accepted = true) :
     (∃ e, db.get id = some e) ∧
     db.any (fun p => !(p.1 == id) && refBytes p.2.f.ref == id) = false ∧
+    ixVetoedFor env (if hasChild db id then .C else .P) .beforeDelete id = false ∧
     (passVetoes env (delFlows db id)).2 = true := by
   rw [specDelete_eq] at h
   cases hg : db.get id with
@@ -64,108 +92,158 @@ theorem specDelete_accepted' (env : Env) (fault : Fault) (id : String) (db : Db)
     · simp [h1, rejectDirty] at h
     · by_cases h2 : db.any (fun p => !(p.1 == id) && refBytes p.2.f.ref == id) = true
       · simp [h1, h2, rejectDirty] at h
-      · simp only [h1, h2, finish] at h
-        exact ⟨⟨e, rfl⟩, by simpa using h2, h⟩
+      · cases h3 : ixVetoedFor env (if hasChild db id then .C else .P) .beforeDelete id with
+        | true => simp [h1, h2, h3, rejectDirty] at h
+        | false =>
+          simp only [h1, h2, h3, finish] at h
+          exact ⟨⟨e, rfl⟩, by simpa using h2, rfl, h⟩
+
+/-- a create that passes validation and the write rules is decided by the index-stage constraints and
+    the pre-commit vetoes -/
+theorem specCreate_tail (env : Env) (fault : Fault) (σ : StoreId) (id : String) (f : PFields) (rank : String) (db : Db)
+    (h : (specCreate env fault σ id f rank db).accepted = true) :
+    createOverVetoed env σ db id = false ∧ ixVetoedFor env σ .afterUpdate id = false ∧
+    writeRejected true db (db.put id (writtenEnt σ db id f rank)) id (createOld σ db id) f = false ∧
+    (id = "" || present σ db id) = false ∧
+    (passVetoes env (writeFlows σ .created db (db.put id (writtenEnt σ db id f rank)) id)).2 = true := by
+  rw [specCreate_eq] at h
+  split at h
+  · simp [rejectClean] at h
+  · rename_i h0
+    split at h
+    · simp [rejectDirty] at h
+    · rename_i h1
+      split at h
+      · simp [rejectDirty] at h
+      · rename_i h2
+        simp only [finish] at h
+        have h1' := h1
+        simp only [Bool.or_eq_true, not_or, Bool.not_eq_true] at h1' h2
+        exact ⟨h2.1, h2.2, h1'.1, by simpa using h0, h⟩
+
+theorem specUpdate_tail (env : Env) (fault : Fault) (σ : StoreId) (id : String) (f : PFields) (rank : String) (db : Db)
+    (h : (specUpdate env fault σ id f rank db).accepted = true) :
+    id ≠ "" ∧ (view (updateStore σ db id) db id).isSome = true ∧
+    ixVetoedFor env (updateStore σ db id) .beforeUpdate id = false ∧
+    ixVetoedFor env (updateStore σ db id) .afterUpdate id = false ∧
+    writeRejected false db (db.put id (writtenEnt σ db id f rank)) id ((db.get id).map (·.f)) f = false ∧
+    (passVetoes env (writeFlows (updateStore σ db id) .updated db (db.put id (writtenEnt σ db id f rank)) id)).2 = true := by
+  rw [specUpdate_eq] at h
+  split at h
+  · simp [rejectClean] at h
+  · rename_i h0
+    cases hv : view (updateStore σ db id) db id with
+    | none => simp [hv, rejectClean] at h
+    | some base =>
+      simp only [hv] at h
+      split at h
+      · simp [rejectDirty] at h
+      · rename_i h1
+        split at h
+        · simp [rejectDirty] at h
+        · rename_i h2
+          simp only [finish] at h
+          have h1' := h1
+          simp only [Bool.or_eq_true, not_or, Bool.not_eq_true] at h1' h2
+          exact ⟨h0, rfl, h2.1, h2.2, h1'.1, h⟩
 
 /-- each declarative failure kind makes the spec reject the operation -/
 theorem opFails_rejected (env : Env) (fault : Fault) (db : Db) (o : Op) (hf : OpFails env db o) :
     (specOp env fault o db).accepted = false := by
-  cases hf with
-  | createBlankId σ f rank => simp [specOp, specCreate, rejectClean]
-  | createExists σ id f rank hp => simp [specOp, specCreate, hp, rejectClean]
-  | createUnusableKey σ id f rank hk =>
-    simp only [specOp, specCreate_eq, writeRejected, hk, Bool.true_or]
-    split <;> simp [rejectClean, rejectDirty]
-  | createName σ id f rank hk =>
-    simp only [specOp, specCreate_eq, writeRejected, hk, Bool.true_or, Bool.or_true]
-    split <;> simp [rejectClean, rejectDirty]
-  | createEmptyRole σ id f rank hk =>
-    simp only [specOp, specCreate_eq, writeRejected, hk, Bool.true_or, Bool.or_true]
-    split <;> simp [rejectClean, rejectDirty]
-  | createMissingFk σ id f rank hk =>
-    simp only [specOp, specCreate_eq, writeRejected, hk, Bool.or_true]
-    split <;> simp [rejectClean, rejectDirty]
-  | createVetoParentFlow id f rank hv =>
-    simp only [specOp, specCreate_eq]
-    split
-    · rfl
-    · split
-      · rfl
-      · simp only [finish]
-        exact passVetoes_vetoed env _ _ (by simp [writeFlows]; exact Or.inl rfl) hv
-  | createVetoOwnFlow σ id f rank hv =>
-    simp only [specOp, specCreate_eq]
-    split
-    · rfl
-    · split
-      · rfl
-      · simp only [finish]
-        cases σ with
-        | P => exact passVetoes_vetoed env _ _ (by simp [writeFlows]; rfl) hv
-        | C => exact passVetoes_vetoed env _ _ (by simp [writeFlows]; exact Or.inr rfl) hv
-  | updateBlankId σ f rank => simp [specOp, specUpdate_eq, rejectClean]
-  | updateNotFound σ id f rank hn =>
-    simp only [specOp, specUpdate_eq, hn]
-    split <;> rfl
-  | updateUnusableKey σ id f rank hk =>
-    simp only [specOp, specUpdate_eq, writeRejected, hk, Bool.true_or]
-    split
-    · rfl
-    · split <;> rfl
-  | updateName σ id f rank hk =>
-    simp only [specOp, specUpdate_eq, writeRejected, hk, Bool.true_or, Bool.or_true]
-    split
-    · rfl
-    · split <;> rfl
-  | updateEmptyRole σ id f rank hk =>
-    simp only [specOp, specUpdate_eq, writeRejected, hk, Bool.true_or, Bool.or_true]
-    split
-    · rfl
-    · split <;> rfl
-  | updateMissingFk σ id f rank hk =>
-    simp only [specOp, specUpdate_eq, writeRejected, hk, Bool.or_true]
-    split
-    · rfl
-    · split <;> rfl
-  | updateVetoParentFlow σ id f rank hv =>
-    simp only [specOp, specUpdate_eq]
-    split
-    · rfl
-    · split
-      · rfl
-      · split
-        · rfl
-        · simp only [finish]
-          cases updateStore σ db id with
-          | P => exact passVetoes_vetoed env _ _ (by simp [writeFlows]; rfl) hv
-          | C => exact passVetoes_vetoed env _ _ (by simp [writeFlows]; exact Or.inl rfl) hv
-  | updateVetoChildFlow σ id f rank hs hv =>
-    simp only [specOp, specUpdate_eq, hs]
-    split
-    · rfl
-    · split
-      · rfl
-      · split
-        · rfl
-        · simp only [finish]
-          exact passVetoes_vetoed env _ _ (by simp [writeFlows]; exact Or.inr rfl) hv
-  | deleteNotFound σ id hn =>
-    cases hacc : (specOp env fault (.delete σ id) db).accepted with
-    | false => rfl
-    | true =>
+  cases hacc : (specOp env fault o db).accepted with
+  | false => rfl
+  | true =>
+    exfalso
+    cases hf with
+    | createBlankId σ f rank =>
+      have := (specCreate_tail env fault σ "" f rank db hacc).2.2.2.1
+      simp at this
+    | createExists σ id f rank hp =>
+      have := (specCreate_tail env fault σ id f rank db hacc).2.2.2.1
+      simp [hp] at this
+    | createUnusableKey σ id f rank hk =>
+      have := (specCreate_tail env fault σ id f rank db hacc).2.2.1
+      simp [writeRejected, hk] at this
+    | createName σ id f rank hk =>
+      have := (specCreate_tail env fault σ id f rank db hacc).2.2.1
+      simp [writeRejected, hk] at this
+    | createEmptyRole σ id f rank hk =>
+      have := (specCreate_tail env fault σ id f rank db hacc).2.2.1
+      simp [writeRejected, hk] at this
+    | createMissingFk σ id f rank hk =>
+      have := (specCreate_tail env fault σ id f rank db hacc).2.2.1
+      simp [writeRejected, hk] at this
+    | createVetoParentFlow id f rank hv =>
+      have hp := (specCreate_tail env fault .C id f rank db hacc).2.2.2.2
+      simp [writeFlows, passVetoes_two, hv] at hp
+    | createVetoOwnFlow σ id f rank hv =>
+      have hp := (specCreate_tail env fault σ id f rank db hacc).2.2.2.2
+      cases σ with
+      | P => simp [writeFlows, passVetoes_one, hv] at hp
+      | C => simp [writeFlows, passVetoes_two, hv] at hp
+    | createIxVetoParent σ id f rank hv =>
+      have := (specCreate_tail env fault σ id f rank db hacc).2.1
+      rw [ixVetoedFor_P env σ _ id hv] at this; cases this
+    | createIxVetoChild id f rank hv =>
+      have := (specCreate_tail env fault .C id f rank db hacc).2.1
+      rw [ixVetoedFor_C env _ id hv] at this; cases this
+    | createIxVetoOverParent id f rank hg hv =>
+      have := (specCreate_tail env fault .C id f rank db hacc).1
+      unfold createOverVetoed createOld at this
+      cases hget : db.get id with
+      | none => simp [hget] at hg
+      | some e => simp [hget, hv] at this
+    | updateBlankId σ f rank =>
+      exact (specUpdate_tail env fault σ "" f rank db hacc).1 rfl
+    | updateNotFound σ id f rank hn =>
+      have := (specUpdate_tail env fault σ id f rank db hacc).2.1
+      rw [hn] at this; cases this
+    | updateUnusableKey σ id f rank hk =>
+      have := (specUpdate_tail env fault σ id f rank db hacc).2.2.2.2.1
+      simp [writeRejected, hk] at this
+    | updateName σ id f rank hk =>
+      have := (specUpdate_tail env fault σ id f rank db hacc).2.2.2.2.1
+      simp [writeRejected, hk] at this
+    | updateEmptyRole σ id f rank hk =>
+      have := (specUpdate_tail env fault σ id f rank db hacc).2.2.2.2.1
+      simp [writeRejected, hk] at this
+    | updateMissingFk σ id f rank hk =>
+      have := (specUpdate_tail env fault σ id f rank db hacc).2.2.2.2.1
+      simp [writeRejected, hk] at this
+    | updateVetoParentFlow σ id f rank hv =>
+      have hp := (specUpdate_tail env fault σ id f rank db hacc).2.2.2.2.2
+      cases hs : updateStore σ db id with
+      | P =>
+        rw [hs] at hp
+        simp [writeFlows, passVetoes_one, hv] at hp
+      | C =>
+        rw [hs] at hp
+        simp [writeFlows, passVetoes_two, hv] at hp
+    | updateVetoChildFlow σ id f rank hs hv =>
+      have hp := (specUpdate_tail env fault σ id f rank db hacc).2.2.2.2.2
+      rw [hs] at hp
+      simp [writeFlows, passVetoes_two, hv] at hp
+    | updateIxVetoParent σ id f rank stage hst hv =>
+      obtain ⟨_, _, hb, ha, _⟩ := specUpdate_tail env fault σ id f rank db hacc
+      cases stage with
+      | beforeUpdate => rw [ixVetoedFor_P env _ _ id hv] at hb; cases hb
+      | afterUpdate => rw [ixVetoedFor_P env _ _ id hv] at ha; cases ha
+      | beforeDelete => exact hst rfl
+    | updateIxVetoChild σ id f rank stage hst hs hv =>
+      obtain ⟨_, _, hb, ha, _⟩ := specUpdate_tail env fault σ id f rank db hacc
+      rw [hs] at hb ha
+      cases stage with
+      | beforeUpdate => rw [ixVetoedFor_C env _ id hv] at hb; cases hb
+      | afterUpdate => rw [ixVetoedFor_C env _ id hv] at ha; cases ha
+      | beforeDelete => exact hst rfl
+    | deleteNotFound σ id hn =>
       obtain ⟨⟨e, hg⟩, _⟩ := specDelete_accepted' env fault id db hacc
       rw [hn] at hg; cases hg
-  | deleteReferenced σ id hr =>
-    cases hacc : (specOp env fault (.delete σ id) db).accepted with
-    | false => rfl
-    | true =>
+    | deleteReferenced σ id hr =>
       obtain ⟨_, hnr, _⟩ := specDelete_accepted' env fault id db hacc
       rw [hr] at hnr; cases hnr
-  | deleteVetoParentFlow σ id hv =>
-    cases hacc : (specOp env fault (.delete σ id) db).accepted with
-    | false => rfl
-    | true =>
-      obtain ⟨⟨e, hg⟩, _, hpv⟩ := specDelete_accepted' env fault id db hacc
+    | deleteVetoParentFlow σ id hv =>
+      obtain ⟨⟨e, hg⟩, _, _, hpv⟩ := specDelete_accepted' env fault id db hacc
       have := passVetoes_vetoed env (delFlows db id)
         { store := .P, kind := .deleted, id := id, initial := some (.parent id e.f), final := none,
           parentEvent := e.child.isSome } (by
@@ -173,11 +251,8 @@ theorem opFails_rejected (env : Env) (fault : Fault) (db : Db) (o : Op) (hf : Op
             simp only [hg]
             cases hc : e.child <;> simp [deleteFlow]) hv
       rw [this] at hpv; cases hpv
-  | deleteVetoChildFlow σ id hc hv =>
-    cases hacc : (specOp env fault (.delete σ id) db).accepted with
-    | false => rfl
-    | true =>
-      obtain ⟨⟨e, hg⟩, _, hpv⟩ := specDelete_accepted' env fault id db hacc
+    | deleteVetoChildFlow σ id hc hv =>
+      obtain ⟨⟨e, hg⟩, _, _, hpv⟩ := specDelete_accepted' env fault id db hacc
       unfold hasChild at hc
       simp only [hg, Option.bind_some] at hc
       obtain ⟨r, hr⟩ := Option.isSome_iff_exists.mp hc
@@ -185,7 +260,15 @@ theorem opFails_rejected (env : Env) (fault : Fault) (db : Db) (o : Op) (hf : Op
             unfold delFlows view
             simp [hg, hr]) hv
       rw [this] at hpv; cases hpv
-  | badQuery σ => rfl
+    | deleteIxVetoParent σ id hv =>
+      obtain ⟨_, _, hix, _⟩ := specDelete_accepted' env fault id db hacc
+      rw [ixVetoedFor_P env _ _ id hv] at hix; cases hix
+    | deleteIxVetoChild σ id hc hv =>
+      obtain ⟨_, _, hix, _⟩ := specDelete_accepted' env fault id db hacc
+      rw [hc] at hix
+      simp only [if_true] at hix
+      rw [ixVetoedFor_C env _ id hv] at hix; cases hix
+    | badQuery σ => simp [specOp, rejectClean] at hacc
 
 theorem specSteps_rejected_stays (env : Env) (body : List Step) (b : Body) (hb : b.accepted = false) :
     (specSteps env body b).accepted = false := by
